@@ -71,11 +71,14 @@ def cases(tier, seed):
     N = 5 if tier == "quick" else 7
     for nm in LAYOUTS:
         out.append({"name": "%s|N=%d" % (nm, N), "params": {"layout": nm, "N": N}, "budget_s": 3000})
+    # ignore_case must reach the terminals of imported files too (letters in the imported terminals; inputs with either case)
+    for nm in ("chain", "imported-terminals"):
+        out.append({"name": "%s|ignore_case|N=3" % nm, "params": {"layout": nm, "N": 3, "icase": True, "alphabet": "xyztXYZT a"}, "budget_s": 1500})
     out.append({"name": "twin:override-root", "params": {"layout": "override-root", "N": 3, "twin": True}, "expect_refuted": True, "budget_s": 300})
     return out
 
 
-def load(files):
+def load(files, **kw):
     d = tempfile.mkdtemp(prefix="vp-c20-")
     _dirs.append(d)
     for name, text in files.items():
@@ -83,7 +86,7 @@ def load(files):
         os.makedirs(os.path.dirname(path), exist_ok=True)
         with open(path, "w") as f:
             f.write(text)
-    return Grammar.from_file(os.path.join(d, "root.pg"))
+    return Grammar.from_file(os.path.join(d, "root.pg"), **kw)
 
 
 def keys(g):
@@ -104,13 +107,14 @@ def build(params, symbolic):
     twin = params.get("twin")
     if twin:
         flat = flat.replace("a_B: 'q';", "a_B: 'b';")  # pretends the override did not happen
+    gkw = {"ignore_case": True} if params.get("icase") else {}
     problem = None
     try:
-        g_m = load(files)
+        g_m = load(files, **gkw)
     except Exception as e:  # noqa
         problem = "multi-file grammar does not load: %s: %s" % (type(e).__name__, str(e).replace("\n", " ")[:150])
     if problem is None:
-        g_f = Grammar.from_string(flat)
+        g_f = Grammar.from_string(flat, **gkw)
         if keys(g_m) != keys(g_f):
             problem = "symbol sets differ: imported %r, flattened %r" % (keys(g_m), keys(g_f))
     if problem is not None:
@@ -121,8 +125,8 @@ def build(params, symbolic):
         hfail.expect = []
         hfail.stubs = []
         return hfail
-    lr_m, lr_f = _try(Parser, load(files)), _try(Parser, Grammar.from_string(flat))
-    glr_m, glr_f = GLRParser(load(files)), GLRParser(Grammar.from_string(flat))
+    lr_m, lr_f = _try(Parser, load(files, **gkw)), _try(Parser, Grammar.from_string(flat, **gkw))
+    glr_m, glr_f = GLRParser(load(files, **gkw)), GLRParser(Grammar.from_string(flat, **gkw))
     for d in _dirs:
         for fn in os.listdir(d):
             if fn.endswith(".pgc"):
@@ -146,8 +150,14 @@ def build(params, symbolic):
             return ("loop",)
         return ("ok", n, [p.call_actions(f[i]) for i in range(min(n, 16))])
 
+    alpha = params.get("alphabet")
+
     def h(w: str):
         n = length_of(w, N)
+        if alpha:
+            for i in range(n):
+                if w[i] not in alpha:
+                    raise Pre()  # case folding of symbolic characters is expensive: letters of the grammar in both cases + layout + one foreign
         a, b = out_glr(glr_m, w), out_glr(glr_f, w)
         if a != b:
             return "GLR: imported grammar gives %r, flattened %r" % (a, b)
